@@ -1,87 +1,130 @@
 """C12 - CLOS classes: precedence, slots and initialisation are order-independent."""
-import json, os, re, shutil, tempfile
+import json, os
 
-from lib import common, pipeline
+from lib import common, gen, pipeline
 
 PROP = "C12"
 SPEC = os.path.join(common.VERIF, "spec", "Clos")
-IDX = {"ca": 1, "cb": 2, "cc": 3, "cd": 4, "ce": 5}
-REPEAT = 3   # the implementation iterates Go maps when it re-merges classes
 
 
-def gen(max_ops):
-    d = tempfile.mkdtemp(prefix="spec-c12-", dir=common.scratch())
-    for f in os.listdir(SPEC):
-        shutil.copy(os.path.join(SPEC, f), d)
-    cfg = re.sub(r"MaxOps = \d+", f"MaxOps = {max_ops}", open(os.path.join(SPEC, "Clos.cfg")).read())
-    open(os.path.join(d, "Clos.cfg"), "w").write(cfg)
-    r = common.run_tlc_with_files(d, "Clos", "Clos.cfg", {}, timeout=1500)
-    if r["errors"]:
-        raise common.Infra("Clos: " + "; ".join(r["errors"][:3]))
-    stimuli = []
-    for row in common.emitted(r["out"]):
-        stimuli.append({"id": len(stimuli) + 1, "ops": row["hist"], "classes": sorted(row["expect"].keys()),
-                        "expect": row["expect"], "feat": sorted(row["feat"])})
-    return stimuli, r
+def to_stim(rows):
+    return [{"ops": r["hist"], "classes": sorted(r["expect"].keys()), "expect": r["expect"], "feat": sorted(r["feat"])} for r in rows]
+
+
+def _ints(x):
+    return x if isinstance(x, str) else [e.get("v") for e in x]
+
+
+SHARED = "initarg-shared-by-two-slots"
 
 
 def judge(stim, ev):
+    """Returns (reason, known): reason = first mismatch that no open finding explains ('' if none);
+    known = set of finding features whose recorded mismatch was observed (the rest of the observation
+    is still judged)."""
+    known = set()
+    for i, st in enumerate(ev["defs"]):
+        if st and stim["ops"][i]["op"] == "defclass":
+            return f"defclass {i + 1} failed: {st}", known
     for c, ex in stim["expect"].items():
         ob = ev["obs"].get(c)
         if ob is None:
-            return f"{c}: not observed"
+            return f"{c}: not observed", known
+        plain, arg = _ints(ob["plain"]), _ints(ob["arg"])
         if not ex["ready"]:
             # a class with an undefined superclass must not produce instances
-            if not ob["slot"].startswith("error:"):
-                return f"{c}: instance made although a superclass is undefined"
+            if not isinstance(plain, str):
+                return f"{c}: instance made although a superclass is undefined", known
             continue
         if not ob["ready"] or ob["prec"] != ex["prec"]:
-            return f"{c}: precedence {ob['prec']} want {ex['prec']}"
-        want = {"noslot": "error", "unbound": "unbound"}.get(ex["slot"], str(IDX.get(ex["slot"], "?")))
-        got = "error" if ob["slot"].startswith("error:") else ob["slot"]
-        if got != want:
-            return f"{c}: slot of a fresh instance is {ob['slot']} want {want}"
-        wantarg = "77" if ex["hasslot"] else "error"
-        gotarg = "error" if ob["slotarg"].startswith("error:") else ob["slotarg"]
-        if gotarg != wantarg:
-            return f"{c}: slot with :s 77 is {ob['slotarg']} want {wantarg}"
-    return ""
+            return f"{c}: precedence {ob['prec']} want {ex['prec']}", known
+        if plain != [ex["s0"], ex["u0"]]:
+            return f"{c}: slots (s u) of a fresh instance are {plain} want {[ex['s0'], ex['u0']]} (0 no slot, -1 unbound)", known
+        if ex["acc"]:
+            if arg != [ex["s1"], ex["u1"]]:
+                # finding C12-F2: an initarg accepted by two slots fills only one of them; exactly that shape is
+                # tolerated for classes where both s and u accept :s: one of the two got 77, the other kept its
+                # value from the plain instance
+                if ex["shared"] and isinstance(arg, list) and sorted([arg[0] == 77, arg[1] == 77]) == [False, True] and \
+                        (arg[0] == plain[0] or arg[1] == plain[1]):
+                    known.add(SHARED)
+                else:
+                    return f"{c}: slots (s u) with :s 77 are {arg} want {[ex['s1'], ex['u1']]}", known
+            elif ex["s1"] == 77 and ob["reader"] != "77":
+                return f"{c}: reader of s answers {ob['reader']} want 77", known
+        if ob["classof"] != c:
+            return f"{c}: class-of a fresh instance is {ob['classof']}", known
+        if sorted(ob["isa"]) != sorted(ex["isa"]):
+            return f"{c}: typep holds for {sorted(ob['isa'])} want {sorted(ex['isa'])}", known
+    return "", known
 
 
 def run(tier, seed):
     rep = common.Report(PROP, tier, seed)
-    max_ops = int(os.environ.get("VERIF_DEPTH", 4 if tier == "quick" else 5))
+    quick = tier == "quick"
+    depth = int(os.environ.get("VERIF_DEPTH", 3 if quick else 4))
+    walks = int(os.environ.get("VERIF_WALKS", 150 if quick else 1500))
+    repeat = 2 if quick else 3      # the implementation iterates Go maps when it re-merges classes
     vdrive = common.build_harness()
-    stimuli, g = gen(max_ops)
-    rep.cov["states"], rep.cov["transitions"] = g["distinct"], g["generated"]
+    rows, g = gen.bfs(SPEC, "Clos", "Clos.cfg", {"MaxOps": depth}, timeout=3000)
+    stimuli = to_stim(rows)
+    # the complete state graph of the two-class world (every transition, no depth bound in effect)
+    rows, g0 = gen.bfs(SPEC, "Clos", "Clos.cfg", {"MaxOps": 9, "NC": 2}, timeout=3000)
+    stimuli += to_stim(rows)
+    n_bfs = len(stimuli)
+    rows, g2 = gen.sim(SPEC, "Clos", "ClosSim.cfg", {}, num=walks, depth=14, seed=seed, timeout=3000)
+    stimuli += to_stim(rows)
+    for i, s in enumerate(stimuli):
+        s["id"] = i + 1
     open_feats = {f["feature"]: f for f in common.load_findings(PROP) if f.get("status") == "open"}
-    hit, judged = {}, 0
-    bad_ids = {}
-    for rnd in range(REPEAT):
+    hit, judged, bad = {}, 0, {}
+    for rnd in range(repeat):
         events = pipeline.drive(vdrive, "c12", [{k: s[k] for k in ("id", "ops", "classes")} for s in stimuli], chunk=300)
         by_t = {e["t"]: e for e in events}
         for s in stimuli:
             judged += 1
-            why = judge(s, by_t[s["id"]])
-            if why and s["id"] not in bad_ids:
-                bad_ids[s["id"]] = (why, by_t[s["id"]], rnd)
+            why, known = judge(s, by_t[s["id"]])
+            for k in known:
+                hit.setdefault(k, set()).add(s["id"])
+            if why and s["id"] not in bad:
+                bad[s["id"]] = (why, by_t[s["id"]], rnd)
     by_id = {s["id"]: s for s in stimuli}
-    for sid, (why, ev, rnd) in bad_ids.items():
+    for sid, (why, ev, rnd) in bad.items():
         s = by_id[sid]
-        known = [f for f in s["feat"] if f in open_feats]
-        if known:
-            for f in known:
-                hit.setdefault(f, []).append(sid)
-        else:
-            rep.violation({"property": PROP, "stimulus": s, "observed": ev, "reason": why, "run": rnd},
-                          f"{json.dumps(s['ops'])}: {why}")
-    for feat, f in open_feats.items():
-        if feat in hit:
-            rep.known.append(f["summary"] + f" ({len(hit[feat])} probes rejected)")
-    rep.cov.update({"traces_validated_against_impl": judged, "evaluations": judged, "distinct_nontrivial": g["distinct"],
-                    "exhaustive": True,
-                    "rule": f"one history of defclass forms (forward references, redefinition) per transition of Clos (3 classes, "
-                            f"<=2 supers, one slot without/with initform, <={max_ops} forms), each executed {REPEAT} times",
-                    "samples": [{"stimulus": s["ops"], "expect": s["expect"]} for s in stimuli[:: max(1, len(stimuli) // 4)][:4]],
-                    "probes": {k: len(v) for k, v in hit.items()}})
+        rep.violation({"property": PROP, "stimulus": s, "observed": ev, "reason": why, "run": rnd},
+                      f"{json.dumps([[o['op'], o['c'], o['supers'], o['cfg']] for o in s['ops']])}: {why}")
+    for feat in sorted(hit):
+        if feat in open_feats:
+            rep.known.append(open_feats[feat]["summary"] + f" ({len(hit[feat])} histories)")
+        else:   # the recorded shape was observed but the finding is not (or no longer) listed as open
+            sid = sorted(hit[feat])[0]
+            rep.violation({"property": PROP, "stimulus": by_id[sid], "reason": feat}, f"{feat}: observed but not listed as an open finding")
+    shapes = {json.dumps(s["expect"], sort_keys=True) for s in stimuli}
+    rep.cov.update({"states": g["distinct"] + g0["distinct"], "transitions": g["generated"] + g0["generated"], "traces_validated_against_impl": judged,
+                    "evaluations": judged, "distinct_nontrivial": len(shapes), "exhaustive": True,
+                    "rule": f"(a) one history of defclass forms (forward references, redefinition, 6 slot configurations) and make-instance "
+                            f"steps per transition of Clos.tla (3 classes, <=2 supers, <={depth} steps; VIEW = definitions + set of classes "
+                            f"already instantiated) - exhaustive, and every transition of the complete state graph for 2 classes; (b) a 1-in-8 sample of the successors of the final states of {walks} random walks "
+                            f"(5 classes, 10 steps). Each history is executed {repeat} times (the implementation iterates Go maps); for every "
+                            "defined class precedence list, slots of fresh instances without / with :s 77, reader, class-of and typep against "
+                            "every class are compared with the values TLC computed. distinct_nontrivial = distinct expected observations",
+                    "samples": [{"stimulus": s["ops"], "expect": s["expect"]} for s in (stimuli[n_bfs // 2], stimuli[-1])],
+                    "gen": [g, g0, g2], "probes": {k: len(v) for k, v in hit.items()}})
+    rep.assumptions = ["class names are immaterial (first mention in the order ca, cb, ...)",
+                       "when :s is not an initarg of any slot the outcome of passing it is not constrained",
+                       "a redefinition that introduces a not-yet-defined superclass is outside the statement and not generated"]
     return rep.finish()
+
+
+def replay(path):
+    payload = json.load(open(path))
+    vdrive = common.build_harness()
+    s = payload["stimulus"]
+    ev = pipeline.drive(vdrive, "c12", [{k: s[k] for k in ("id", "ops", "classes")}])[0]
+    why, _ = judge(s, ev)
+    print(json.dumps(ev))
+    if why:
+        print(f"VIOLATION property={PROP} replay={path}\n  {why}")
+        return 1
+    print("accepted")
+    return 0
